@@ -385,6 +385,26 @@ def run(ctx):
     ctx.check(len(tloops) == 1 and not cut_short, "R18.6", "SqliteReader.__iter__:all-tables",
               "__iter__ does not visit every enumerated table", itf, "for table_name in self.table_names()")
 
+    # ------------------------------------------------------------------ R18.7 the database's state is not memoised
+    ctx.rule("R18.7", "a memoised function (functools.lru_cache / cache) of the SQL adapters does not read the database: what a table looks like changes with "
+                      "every CREATE / ALTER the writer issues, and a cached answer makes the next column evolution add the wrong columns")
+    n_memo = 0
+    for mname in ("flow.record.adapter.sqlite", "flow.record.adapter.duckdb"):
+        m = prog.modules.get(mname)
+        if m is None:
+            continue
+        ctx.use(m)
+        for fn in [n for n in ast.walk(m.tree) if isinstance(n, (ast.FunctionDef, ast.AsyncFunctionDef))]:
+            decos = [norm(d.func) if isinstance(d, ast.Call) else norm(d) for d in fn.decorator_list]
+            if not any(d.split(".")[-1] in ("lru_cache", "cache", "cached_property") for d in decos):
+                continue
+            n_memo += 1
+            reads = [c for c in calls_in(fn) if isinstance(c.func, ast.Attribute) and c.func.attr in ("execute", "executemany", "executescript", "cursor", "fetchall", "fetchone", "fetchmany", "sql")]
+            ctx.check(not reads, "R18.7", f"{fn.name}:memoised", f"{fn.name}() is memoised but asks the database (`{norm(reads[0])[:60] if reads else ''}`): after the table has been altered it still "
+                      "answers with the columns it saw first, so a later evolution re-adds an existing column (error) and never adds the new one - the records of that layout are lost",
+                      reads[0] if reads else fn, "memoised helpers are pure functions of their arguments", key=f"R18.7:{fn.name}:memoised-database-read")
+    ctx.floor("R18.7", "memoised functions in the SQL adapters", n_memo, 1)
+
 
 def _is_type_slot(prog, sq, fn, v, la) -> bool:
     """An unquoted slot is acceptable when it is an SQL type taken from FIELD_MAP (or its constant default)."""
